@@ -271,14 +271,19 @@ class Geometry:
         return res
 
     def line(self, cmd, clip, segs=None):
+        """the protocol line; the order of the `Line` / `Vertex` cells in the file carries no meaning for the
+        kernel, so segments and points of interest are listed in a scrambled (deterministic) order"""
+        scramble = segs is None
         segs = self.segs if segs is None else segs
+        if scramble:
+            segs = sorted(segs, key=lambda ab: ((ab[0] * 7919 + 13) % 17, ab))
         parts = [cmd, clip, rs(self.cell[0]), rs(self.cell[1]), str(len(self.verts))]
         for x, y in self.verts:
             parts += [rs(x), rs(y)]
         parts.append(str(len(segs)))
         for a, b in segs:
             parts += [str(a), str(b)]
-        ids = self.poi_ids()
+        ids = sorted(self.poi_ids(), key=lambda v: ((v * 7919 + 5) % 13, v))
         parts.append(str(len(ids)))
         parts += [str(i) for i in ids]
         return " ".join(parts)
